@@ -52,16 +52,17 @@ type c18Script struct {
 }
 
 type c18Inv struct {
-	n        int
-	script   c18Script
-	inner    error // the innermost error a fatal ending wraps
-	calls    []*c18Call
-	started  bool
-	inOp     bool
-	ended    bool // the ending call (success / fatal) has returned
-	returned bool
-	logAtInv int
-	logAtRet int
+	n         int
+	script    c18Script
+	inner     error // the innermost error a fatal ending wraps
+	calls     []*c18Call
+	started   bool
+	inOp      bool
+	ended     bool // the ending call (success / fatal) has returned
+	returned  bool
+	logAtInv  int
+	randAtInv int
+	logAtRet  int
 }
 
 type c18State struct {
@@ -330,6 +331,36 @@ func c18Retry() {
 		if n := len(inv.calls); n > 0 {
 			last = inv.calls[n-1]
 		}
+		// the random slot ranges the library asked for: one draw per plain failure, the k-th over
+		// exactly 2^min(k,31) slots (the range is what the math/rand seam is asked for, so a range that
+		// is too small is visible even when the drawn slot happens to be legal)
+		var draws []int64
+		for _, d := range simrt.RandLog()[inv.randAtInv:] {
+			if d.Task == st.rid {
+				draws = append(draws, d.N)
+			}
+		}
+		plain := 0
+		for _, c := range inv.calls {
+			if c.outcome == c18Plain {
+				plain++
+			}
+		}
+		if len(draws) == plain {
+			for i, n := range draws {
+				k := i + 1
+				if k > 31 {
+					k = 31
+				}
+				if n != int64(1)<<uint(k) {
+					simrt.Failf("C18.slot-range", "invocation %d: after failure %d the random slot was drawn from [0,%d), the statement requires [0, 2^min(k,31)) = [0,%d)", inv.n, i+1, n, int64(1)<<uint(k))
+					return false
+				}
+			}
+			simrt.Probe("slot_ranges_checked")
+		} else {
+			simrt.Probe("slot_draws_not_one_per_failure")
+		}
 		// the wait after the last failure (cut short by the cancellation), if any
 		if last != nil && last.outcome == c18Plain {
 			if !st.checkWait(inv, len(inv.calls), last.logAtEnd, inv.logAtRet, last.endAt, -1) {
@@ -384,6 +415,7 @@ func c18Retry() {
 			st.cur = inv
 			inv.started = true
 			inv.logAtInv = len(simrt.TimerLog())
+			inv.randAtInv = len(simrt.RandLog())
 			res, err := fn()
 			inv.returned = true
 			inv.logAtRet = len(simrt.TimerLog())
